@@ -76,6 +76,8 @@ def run(tier, seed, only=None):
         j.setdefault("heads", "default" if (k % 2 == 1 or (j["model"] == "bottomup" and k % 4 != 0)) else "explicit")
         # epoch length: given (1 step, batch 1) or left to the trainer (steps_per_epoch unset, batch 4 > label set)
         j.setdefault("feed", "derived" if k % 3 == 2 else "explicit")
+        # YAML-loaded configurations: complete, or lean (without the entries the trainer guards as optional; derived crop size)
+        j.setdefault("lean", (not j["structured"]) and (k % 2 == 0 or j["model"] == "centered_instance"))
     obs = run_jobs(jobs, shim.REPO, seed, workers=14, timeout=900)
     bad = [o for o in obs if o.get("machinery")]
     if bad:
@@ -91,6 +93,7 @@ def run(tier, seed, only=None):
     res.clause("runs_with_wandb", sum(1 for o in obs if o["job"]["wandb"]))
     res.clause("runs_structured", sum(1 for o in obs if o["job"]["structured"]))
     res.clause("runs_low_memory_fallback", sum(1 for o in obs if o["job"].get("lowmem")))
+    res.clause("runs_with_lean_yaml", sum(1 for o in obs if o["job"].get("lean")))
     res.clause("runs_with_derived_epoch_length", sum(1 for o in obs if o["job"].get("feed") == "derived"))
     res.clause("runs_with_default_head_sections", sum(1 for o in obs if o["job"].get("heads") == "default"))
     res.clause("runs_np_chunks", sum(1 for o in obs if o["job"]["fw"] != "torch_dataset"))
